@@ -1,0 +1,9 @@
+//go:build verif
+
+// Contracts for package diff, checked by /verif/gvc (comment-only file).
+
+package diff
+
+//@ func Difference(nx, ny, f) (es)
+//@   trusted Myers-style edit script between two index ranges (summarised: only its frame is used)
+//@   assigns nothing
